@@ -72,7 +72,7 @@ func profileOf(name string) profileCfg {
 		c.minObs, c.maxObs = 3, 8
 		m["obs"], m["otoggle"], m["emit"], m["set"], m["relbatch"], m["setrel"], m["xchgb"], m["setrelb"] = 4, 4, 3, 2, 3, 2, 3, 2
 	case "relations":
-		m["setrel"], m["setrelb"], m["del"], m["delb"], m["shrink"] = 3, 3, 2, 2, 2
+		m["setrel"], m["setrelb"], m["del"], m["delb"], m["shrink"], m["staleq"] = 3, 3, 2, 2, 2, 4
 	case "batch":
 		m["newb"], m["xchgb"], m["setrelb"], m["delb"] = 3, 4, 4, 3
 		c.minObs, c.maxObs = 1, 4
@@ -82,7 +82,7 @@ func profileOf(name string) profileCfg {
 		c.stale = 0.15
 	case "queries":
 		c.minFilters = 5
-		m["query"], m["qopen"], m["filter"], m["setrel"], m["twinq"] = 4, 4, 3, 2, 4
+		m["query"], m["qopen"], m["filter"], m["setrel"], m["twinq"], m["staleq"] = 4, 4, 3, 2, 4, 6
 	case "cache":
 		c.minFilters = 4
 		m["freg"], m["query"], m["qopen"], m["setrel"], m["del"], m["shrink"], m["reset"], m["filter"] = 6, 4, 3, 2, 2, 3, 3, 2
@@ -784,6 +784,69 @@ func (g *Gen) opRelBatchNoFn() bool {
 	return true
 }
 
+// opStaleTargetQuery: a query whose relation target is a removed entity whose ID has been
+// recycled, while the new incarnation is itself a target of the same relation.
+func (g *Gen) opStaleTargetQuery() bool {
+	var rels []int
+	for _, n := range g.regNames() {
+		if g.isRel(n) {
+			rels = append(rels, n)
+		}
+	}
+	if len(rels) == 0 {
+		return false
+	}
+	// a dead label and an alive label sharing an ID
+	byID := map[uint32]int{}
+	for _, l := range g.aliveLabels() {
+		byID[g.h.labels[l].ID()] = l
+	}
+	dead, alive := -1, -1
+	for _, l := range g.deadLabels() {
+		if a, ok := byID[g.h.labels[l].ID()]; ok {
+			dead, alive = l, a
+			break
+		}
+	}
+	if dead < 0 {
+		// make one: remove an entity and create another right away (LIFO recycling)
+		al := g.aliveLabels()
+		if len(al) == 0 {
+			return false
+		}
+		dead = al[g.pick(len(al))]
+		g.emit(fmt.Sprintf("del e%d", dead))
+		alive = g.nextEnt
+		g.nextEnt++
+		g.ents = append(g.ents, alive)
+		g.emit(fmt.Sprintf("new0 e%d", alive))
+		if e, ok := g.h.labels[alive]; !ok || e.ID() != g.h.labels[dead].ID() {
+			return true
+		}
+	}
+	r := rels[g.pick(len(rels))]
+	// the new incarnation becomes a target of relation r
+	l := g.nextEnt
+	g.nextEnt++
+	g.ents = append(g.ents, l)
+	g.emit(fmt.Sprintf("new e%d u c%d:%d>e%d", l, r, g.val(), alive))
+	// unsafe and typed filters on r, queried for the dead handle
+	for _, kind := range []string{"unsafe", "typed"} {
+		f := g.nextFilter
+		g.nextFilter++
+		g.emit(fmt.Sprintf("filter f%d %s with=c%d", f, kind, r))
+		if _, ok := g.h.filters[f]; ok {
+			g.filterLabels = append(g.filterLabels, f)
+			if kind != "unsafe" {
+				g.typedFilters = append(g.typedFilters, f)
+			}
+			g.emit(fmt.Sprintf("query f%d rel=c%d>e%d", f, r, dead))
+			g.emit(fmt.Sprintf("query f%d rel=c%d>e%d", f, r, alive))
+		}
+	}
+	return true
+}
+
 // opTwinQueries: a Batch(rel) call on a typed filter followed by two simultaneously open
 // queries of that filter with different per-query targets, advanced alternately.
 func (g *Gen) opTwinQueries() bool {
@@ -1372,6 +1435,7 @@ func (g *Gen) Run(nseq, nops int) {
 			{"relbatch", 2, g.opRelBatchNoFn},
 			{"typedwide", 1, g.opTypedWide},
 			{"twinq", 2, g.opTwinQueries},
+			{"staleq", 1, g.opStaleTargetQuery},
 			{"locked", 1, func() bool { g.emit("locked"); return true }},
 		}
 		total := 0
